@@ -300,6 +300,37 @@ def run_split_arms(ctx: Ctx) -> RuleResult:
                 diff = [(x, y) for x, y in zip(a, b) if x != y][:1] or [(a[-1:], b[-1:])]
                 res.finding(f, st, 'the str arm and the bytes arm differ beyond the representation of their constants: %s vs %s -- the same '
                             'input gives a different result as str and as bytes' % diff[0], construct='split-arms')
+    # everywhere: a field that both arms of an isinstance(x, bytes) split assign from the input holds text in both -- the bytes arm
+    # decodes what it stores (the field is compared / printed as str by users and by the other representation)
+    n2 = 0
+    for f in repo.functions.values():
+        if not f.module.name.startswith('lark') or f.module.name.startswith('lark.tools'):
+            continue
+        for st in f.body_nodes():
+            if not (isinstance(st, ast.If) and st.orelse and isinstance(st.test, ast.Call) and norm(st.test.func) == 'isinstance'
+                    and len(st.test.args) == 2 and norm(st.test.args[1]) == 'bytes'):
+                continue
+            src = norm(st.test.args[0])
+
+            def stores(arm):
+                out = {}
+                for s_ in arm:
+                    if isinstance(s_, ast.Assign) and len(s_.targets) == 1 and isinstance(s_.targets[0], ast.Attribute):
+                        if any(norm(x) == src for x in ast.walk(s_.value)):
+                            out[norm(s_.targets[0])] = s_
+                return out
+            sb, ss_ = stores(st.body), stores(st.orelse)
+            for fld in sorted(set(sb) & set(ss_)):
+                n2 += 1
+                enc_other = any(isinstance(c, ast.Call) and isinstance(c.func, ast.Attribute) and c.func.attr == 'encode' for c in ast.walk(ss_[fld].value))
+                dec = any(isinstance(c, ast.Call) and isinstance(c.func, ast.Attribute) and c.func.attr == 'decode' for c in ast.walk(sb[fld].value))
+                ok = dec or enc_other
+                res.ob('%s %s' % (f.module.loc(st), f.qual), '%s holds text for both representations (the bytes arm decodes)' % fld, ok)
+                if not ok:
+                    res.finding(f, sb[fld], 'for bytes input %s is stored undecoded (%s) while the str arm stores text: the same error carries a '
+                                'bytes object for one representation and a str for the other' % (fld, norm(sb[fld].value)[:80]),
+                                construct='split-arms:undecoded:%s' % fld)
+    res.require_instances(n2, 1, 'fields assigned from the input in both arms of a bytes split')
     res.require_instances(n, 1, 'representation splits with twin arms')
     return res
 
@@ -307,3 +338,134 @@ def run_split_arms(ctx: Ctx) -> RuleResult:
 def _strip(s: ast.AST) -> ast.AST:
     """A private copy of a statement (re-parsed from its normalised text: the model's nodes carry parent links and are shared)."""
     return ast.parse(norm(s)).body[0]
+
+
+# ------------------------------------------------------------------------------------------------
+# R-PARAM-FORWARD: a function that delegates to a callee with a parameter of the same name as one of its own uses that parameter.
+PARAM_FORWARD_EXCEPTIONS = {
+    ('CustomLexerWrapper', 'lex', 'parser_state'): 'adapter around a user lexer with the old interface, which takes the text only',
+}
+
+# which properties a dropped argument bears on, by the module it is dropped in
+_FORWARD_PROPS = [
+    ('lark.lark', ['C13', 'C08', 'C10']), ('lark.parser_frontends', ['C13', 'C08', 'C10']), ('lark.parsers.lalr', ['C13', 'C08']),
+    ('lark.lexer', ['C07', 'C14']), ('lark.load_grammar', ['C17', 'C03']), ('lark.parsers.earley', ['C04', 'C05']),
+    ('lark.parsers.xearley', ['C04', 'C05']), ('lark.parse_tree_builder', ['C03', 'C06']), ('lark.visitors', ['C16']),
+    ('lark.indenter', ['C18']), ('lark.tools', ['C11']), ('lark.utils', ['C10']), ('lark.common', ['C10']), ('lark.tree', ['C16']),
+]
+
+
+def _is_stub(f: FuncInfo) -> bool:
+    body = core_stmts(f.node.body)
+    return all(isinstance(s, (ast.Pass, ast.Raise)) or (isinstance(s, ast.Expr) and isinstance(s.value, ast.Constant)) or
+               (isinstance(s, ast.Return) and (s.value is None or isinstance(s.value, ast.Constant))) for s in body)
+
+
+def run_param_forward(ctx: Ctx) -> RuleResult:
+    repo = ctx.repo
+    res = RuleResult('R-PARAM-FORWARD', 'a function that hands its work to a callee with a parameter of the same name passes that parameter on '
+                                        '(or uses it): an argument of the public entry point is not silently dropped')
+    byname: Dict[str, List[FuncInfo]] = {}
+    for f in repo.functions.values():
+        byname.setdefault(f.name, []).append(f)
+
+    def all_params(h: FuncInfo) -> List[str]:
+        a = h.node.args
+        return [q.arg for q in list(a.posonlyargs) + list(a.args) + list(a.kwonlyargs)]
+    n = 0
+    for f in repo.functions.values():
+        if not f.module.name.startswith('lark') or isinstance(f.node, ast.Lambda) or _is_stub(f):
+            continue
+        params = all_params(f)
+        if f.cls is not None and params and not f.is_staticmethod:
+            params = params[1:]
+        params = [p for p in params if not p.startswith('_')]
+        if not params:
+            continue
+        reads = {x.id for x in ast.walk(f.node) if isinstance(x, ast.Name) and isinstance(x.ctx, (ast.Load, ast.Del))}
+        callees: Dict[str, ast.Call] = {}
+        for c in ast.walk(f.node):
+            if isinstance(c, ast.Call):
+                g = c.func.attr if isinstance(c.func, ast.Attribute) else (c.func.id if isinstance(c.func, ast.Name) else None)
+                if g is not None and g not in callees:
+                    callees[g] = c
+        for p in params:
+            takers = sorted({g for g in callees for h in byname.get(g, []) if h is not f and p in all_params(h)})
+            if not takers:
+                continue
+            n += 1
+            if p in reads:
+                continue
+            k = f.cls.name.rstrip('0123456789') if f.cls is not None else ''
+            if (k, f.name, p) in PARAM_FORWARD_EXCEPTIONS:
+                res.ob('%s %s' % (f.loc(), f.qual), 'parameter `%s` unused: %s' % (p, PARAM_FORWARD_EXCEPTIONS[(k, f.name, p)]), True)
+                continue
+            props = next((pr for pre, pr in _FORWARD_PROPS if f.module.name.startswith(pre)), None)
+            res.ob('%s %s' % (f.loc(), f.qual), 'parameter `%s` is used or passed on' % p, False)
+            res.finding(f, callees[takers[0]], 'parameter `%s` of %s is never used, although the function delegates to %s(), which takes a '
+                        'parameter of that name: what the caller asked for (%s=...) silently does not apply' % (p, f.qual, takers[0], p),
+                        construct='dropped-parameter:%s->%s' % (p, takers[0]), props=props)
+    res.notes.append('%d (function, parameter, same-named callee parameter) triples examined' % n)
+    res.require_instances(n, 100, 'forwardable parameters')
+    return res
+
+
+# ------------------------------------------------------------------------------------------------
+# R-CLASS-MUTABLE: a list / dict / set bound in a class body is one object shared by every instance (and by every later parser):
+# it is never changed in place -- through `self.X += [...]`, a mutator call or an item store.
+_MUTATORS = ('append', 'extend', 'insert', 'update', 'add', 'pop', 'remove', 'clear', 'setdefault', 'sort', 'discard', 'popitem', 'reverse')
+
+
+def run_class_mutable(ctx: Ctx) -> RuleResult:
+    repo = ctx.repo
+    res = RuleResult('R-CLASS-MUTABLE', 'containers bound in a class body are never changed in place (they are shared by all instances)')
+    n = 0
+    for k in repo.classes.values():
+        if not k.module.name.startswith('lark'):
+            continue
+        attrs: Dict[str, ast.AST] = {}
+        for st in k.node.body:
+            tgt, val = None, None
+            if isinstance(st, ast.Assign) and len(st.targets) == 1 and isinstance(st.targets[0], ast.Name):
+                tgt, val = st.targets[0].id, st.value
+            elif isinstance(st, ast.AnnAssign) and isinstance(st.target, ast.Name) and st.value is not None:
+                tgt, val = st.target.id, st.value
+            if tgt is None:
+                continue
+            if isinstance(val, (ast.List, ast.Dict, ast.Set, ast.ListComp, ast.DictComp, ast.SetComp)) or \
+                    (isinstance(val, ast.Call) and norm(val.func) in ('list', 'dict', 'set', 'defaultdict', 'OrderedDict', 'deque')):
+                attrs[tgt] = st
+        if not attrs:
+            continue
+        bad: Dict[str, List[Tuple[FuncInfo, ast.AST, str]]] = {a: [] for a in attrs}
+        for kk in [k] + k.all_subclasses():
+            for m in kk.methods.values():
+                sn = m.self_name()
+                recv_ok = {sn, 'cls', kk.name, k.name} - {None}
+                # an instance attribute of the same name assigned earlier in the method hides the class one
+                rebound = {t.attr for a in m.body_nodes() if isinstance(a, ast.Assign) for t in a.targets
+                           if isinstance(t, ast.Attribute) and isinstance(t.value, ast.Name) and t.value.id == sn}
+                for x in m.body_nodes():
+                    if isinstance(x, ast.AugAssign) and isinstance(x.target, ast.Attribute) and x.target.attr in attrs \
+                            and isinstance(x.target.value, ast.Name) and x.target.value.id in recv_ok:
+                        bad[x.target.attr].append((m, x, 'augmented assignment changes the class\'s own object in place before rebinding'))
+                    if isinstance(x, ast.Call) and isinstance(x.func, ast.Attribute) and x.func.attr in _MUTATORS \
+                            and isinstance(x.func.value, ast.Attribute) and x.func.value.attr in attrs and isinstance(x.func.value.value, ast.Name) \
+                            and x.func.value.value.id in recv_ok and x.func.value.attr not in rebound:
+                        bad[x.func.value.attr].append((m, x, '.%s() on the class\'s own object' % x.func.attr))
+                    if isinstance(x, (ast.Assign, ast.Delete)):
+                        for t in x.targets:
+                            if isinstance(t, ast.Subscript) and isinstance(t.value, ast.Attribute) and t.value.attr in attrs \
+                                    and isinstance(t.value.value, ast.Name) and t.value.value.id in recv_ok and t.value.attr not in rebound:
+                                bad[t.value.attr].append((m, x, 'item store into the class\'s own object'))
+        for a, st in sorted(attrs.items()):
+            n += 1
+            ok = not bad[a]
+            res.ob('%s %s.%s' % (k.module.loc(st), k.qual, a), 'class-level container is never changed in place', ok)
+            for m, x, how in bad[a]:
+                props = None
+                res.finding(m, x, '%s.%s is bound in the class body, so it is one object for all instances; `%s`: %s -- the change is seen by '
+                            'every other instance and every later one' % (k.name, a, norm(x)[:80], how),
+                            construct='class-container:%s.%s' % (k.name, a), props=props)
+    res.require_instances(n, 3, 'class-level containers')
+    return res
